@@ -54,6 +54,10 @@ def run_case(seed, tier, rec, st):
     x = rng.random()
     if x < 0.03:
         threaded_first_use_case(rng, tier, rec, st, seed)
+    elif x < 0.05:
+        module_name_case(rng, tier, rec, st)
+    elif x < 0.07:
+        foreign_default_case(rng, tier, rec, st)
     elif x < 0.08:
         passthrough_union_case(rng, tier, rec, st)
     elif x < 0.55:
@@ -92,6 +96,168 @@ def walk_new_functions(rec, st, context):
             rec.violation("closure:unresolved-global:" + (context.get("kind") or "schema") + ":" + ",".join(names)[:80],
                           dict(context, function=re.sub(r"_[0-9a-f]{32}", "", fn.__name__), unresolved=names),
                           {"monitor": "closure", "names": names, "kind": context.get("kind")})
+
+
+PLAUSIBLE_MODULE_NAMES = ["cache", "partial", "reduce", "wraps", "chain", "field", "fields", "replace", "asdict", "helpers", "common", "config",
+                          "models", "schema", "utils", "const", "dialect", "mixins", "codecs", "exceptions", "registry", "pack", "unpack", "builder",
+                          "meta", "core", "mixin", "base", "app", "domain", "entities", "dto", "suppress", "copy", "deepcopy", "defaultdict", "namedtuple",
+                          "Optional", "Any", "Callable", "Iterable", "Mapping", "Sequence", "Type", "Union", "cast", "overload", "final", "random_hex",
+                          # names that generated functions use for their own parameters and local variables
+                          "value", "d", "key", "kwargs", "cls", "self", "fields", "variant", "variants", "variants_map", "discriminator", "encoder", "decoder",
+                          "dialect", "default_dialect", "item", "items", "result", "obj", "data", "context", "omit_none", "by_alias", "variant_tags", "tag",
+                          "name", "names", "idx", "attrs", "holder", "packer", "unpacker", "pack", "unpack", "spec", "v", "k", "e", "x", "n", "m", "t",
+                          "__value", "values", "keys", "mapping", "record", "payload", "event", "events", "user", "users", "order", "orders", "types_", "enums"]
+
+MODULE_NAME_SRC = """
+import enum, pathlib
+from dataclasses import dataclass, field
+from typing import NamedTuple, Optional, List, Dict, Union, TypedDict
+from mashumaro import DataClassDictMixin
+from mashumaro.mixins.msgpack import DataClassMessagePackMixin
+from mashumaro.config import BaseConfig, ADD_DIALECT_SUPPORT
+from mashumaro.dialect import Dialect
+class EmptyD(Dialect):
+    pass
+class Policy(enum.Enum):
+    A = 'a'
+    B = 'b'
+class NT(NamedTuple):
+    p: Policy
+    n: int = 0
+class TDc(TypedDict, total=False):
+    p: Policy
+class MyPath(pathlib.PurePosixPath):
+    pass
+@dataclass
+class Inner:
+    p: Policy = Policy.A
+@dataclass
+class U1:
+    a: Policy
+@dataclass
+class U2:
+    b: int
+@dataclass
+class M(DataClassMessagePackMixin):
+    p: Policy
+    nt: NT
+    inner: Inner
+    path: MyPath
+    ps: List[Policy] = field(default_factory=list)
+    op: Optional[Policy] = None
+    mp: Dict[str, Policy] = field(default_factory=dict)
+    td: TDc = field(default_factory=dict)
+    u: Union[U1, U2] = field(default_factory=lambda: U2(3))
+    d: Policy = Policy.B
+    class Config(BaseConfig):
+        omit_default = True
+        code_generation_options = [ADD_DIALECT_SUPPORT]
+"""
+
+
+def module_name_case(rng, tier, rec, st):
+    """the schema classes live in a user's top-level module called like something the library imports or defines in the
+    module of its code generator (its globals seed every generated namespace)."""
+    import sys
+    import types
+    import keyword
+    from mashumaro.core.meta.code import builder as _b
+    lib = sorted(k for k in vars(_b) if not k.startswith("__") and k.isidentifier() and not keyword.iskeyword(k))
+    name = rng.choice(lib) if rng.random() < 0.5 else rng.choice(PLAUSIBLE_MODULE_NAMES)
+    saved = sys.modules.get(name)
+    m = types.ModuleType(name)
+    sys.modules[name] = m
+    facts = {"scenario": "module-name", "module_name": name, "is_global_of_code_generator": name in lib, "monitor": "module-name"}
+    try:
+        try:
+            exec(MODULE_NAME_SRC, m.__dict__)
+        except Exception as e:
+            if saved is not None:
+                rec.count("module_name_shadows_a_real_module_skipped")      # the harness itself cannot import through a fake stdlib module
+                return
+            raise
+        try:
+            from mashumaro.codecs.basic import BasicDecoder, BasicEncoder
+            x = m.M(m.Policy.A, m.NT(m.Policy.B, 1), m.Inner(), m.MyPath("/a"), [m.Policy.A], m.Policy.A, {"k": m.Policy.A}, m.TDc(p=m.Policy.B), m.U1(m.Policy.A))
+            d = x.to_dict()
+            y = m.M.from_dict(d)
+            problems = []
+            if y != x or type(y.p) is not m.Policy or type(y.nt) is not m.NT or type(y.path) is not m.MyPath:
+                problems.append(f"round trip: {y!r}")
+            if m.M.from_msgpack(x.to_msgpack()) != x:
+                problems.append("msgpack round trip")
+            if BasicDecoder(m.M).decode(BasicEncoder(m.M).encode(x)) != x:
+                problems.append("codec round trip")
+            if m.M.from_dict(x.to_dict(dialect=m.EmptyD), dialect=m.EmptyD) != x:
+                problems.append("round trip under a call dialect")
+            try:
+                m.M.from_dict({})
+                problems.append("no MissingField")
+            except Exception as e:
+                if type(e).__name__ != "MissingField":
+                    problems.append(f"missing key: {type(e).__name__}: {e}"[:200])
+            try:
+                m.M.from_dict({"p": "zzz", "nt": ["a"], "inner": {}, "path": "/"})
+                problems.append("no InvalidFieldValue")
+            except Exception as e:
+                if type(e).__name__ != "InvalidFieldValue" or type(e.__context__).__name__ != "ValueError":
+                    problems.append(f"bad enum value: {type(e).__name__} / {type(e.__context__).__name__}: {e.__context__}"[:200])
+        except Exception as e:
+            problems = [f"{type(e).__name__}: {e}"[:200]]
+        if problems:
+            rec.violation("module-name:classes-of-a-module-named-like-a-library-name-are-not-reached", {"module_name": name, "problems": problems}, facts)
+        else:
+            rec.count("module_name_ok")
+            rec.nontrivial(("module-name", name))
+    finally:
+        if saved is not None:
+            sys.modules[name] = saved
+        else:
+            sys.modules.pop(name, None)
+        # the functions generated here are judged by what they did above, not by the closure walk of a later case
+        for i in st["gen"].functions:
+            st["walked"].add(i)
+
+
+def foreign_default_case(rng, tier, rec, st):
+    """a default VALUE whose class comes from a module no annotation of the class mentions (an IntEnum member as the default
+    of an int field, ...): comparing with it (omit_default) and rendering it must not need that module by name."""
+    other = Family("c17dflt")
+    fam = Family("c17", future_annotations=rng.random() < 0.2)
+    try:
+        other.exec_src("class Priority(enum.IntEnum):\n    LOW = 1\n    NORMAL = 5\nclass Mode(str, enum.Enum):\n    R = 'r'\n    W = 'w'\n"
+                       "class Level(enum.Enum):\n    A = 'a'\n")
+        fam.module.other = other.module
+        od = rng.choice(["Config", "dialect", "call"])
+        cfg = {"Config": "    class Config(BaseConfig):\n        omit_default = True\n",
+               "dialect": "    class Config(BaseConfig):\n        dialect = OD\n",
+               "call": "    class Config(BaseConfig):\n        code_generation_options = [ADD_DIALECT_SUPPORT]\n"}[od]
+        mixin = rng.random() < 0.7
+        fam.exec_src("class OD(Dialect):\n    omit_default = True\n"
+                     f"@dataclass\nclass FD{'(DataClassDictMixin)' if mixin or od == 'call' else ''}:\n    prio: int = other.Priority.NORMAL\n    mode: str = other.Mode.R\n"
+                     "    anyv: Any = other.Level.A\n    tup: Tuple[int, str] = (other.Priority.LOW, other.Mode.W)\n    n: int = 0\n" + cfg)
+        cls = fam.module.FD
+        ctx = {"source": "".join(fam.sources[1:]), "omit_default_from": od}
+        facts = {"scenario": "foreign-default", "monitor": "foreign-default"}
+        from mashumaro.codecs.basic import BasicEncoder
+        kw = {"dialect": fam.module.OD} if od == "call" else {}
+        enc = (lambda o: o.to_dict(**kw)) if hasattr(cls, "to_dict") else BasicEncoder(cls).encode
+        for inst, exp in ((cls(), {}), (cls(prio=1, mode="w", n=3), {"prio": 1, "mode": "w", "n": 3})):
+            rec.evaluation()
+            try:
+                out = enc(inst)
+            except Exception as e:
+                rec.violation(f"foreign-default:{type(e).__name__}", dict(ctx, error=f"{type(e).__name__}: {e}"[:300]), dict(facts, exc=type(e).__name__))
+                continue
+            if out == exp:
+                rec.count("foreign_default_ok")
+                rec.nontrivial(("foreign-default", od, mixin, repr(exp)))
+            else:
+                rec.violation("foreign-default:wrong-projection", dict(ctx, observed=common.short(out), expected=common.short(exp)), facts)
+        walk_new_functions(rec, st, dict(ctx, kind="foreign-default"))
+    finally:
+        fam.dispose()
+        other.dispose()
 
 
 def schema_case(rng, tier, rec, st):
